@@ -1,0 +1,72 @@
+//go:build verif
+
+package pppoe
+
+import "encoding/binary"
+
+// Verification hooks for property C11 (RFC 1661 automata). Accessors and a timer-expiry
+// injection point only; compiled in with -tags verif, absent from normal builds.
+
+// VerifFSMSnapshot is a read-only view of the automaton's private fields.
+type VerifFSMSnapshot struct {
+	State          int
+	RestartCount   int
+	Identifier     uint8
+	LastIdentifier uint8
+	TimerArmed     bool   // restartTimer != nil
+	Local          []byte // protocol-specific local option state (see the accessors)
+}
+
+// VerifSnapshot: Local = config.MagicNumber(4) negotiated.LocalMRU(2) PFC(1) ACFC(1).
+func (lcp *LCPStateMachine) VerifSnapshot() VerifFSMSnapshot {
+	lcp.mu.RLock()
+	defer lcp.mu.RUnlock()
+	lcp.timerMu.Lock()
+	defer lcp.timerMu.Unlock()
+	loc := make([]byte, 8)
+	binary.BigEndian.PutUint32(loc[0:4], lcp.config.MagicNumber)
+	binary.BigEndian.PutUint16(loc[4:6], lcp.negotiated.LocalMRU)
+	if lcp.config.PFC {
+		loc[6] = 1
+	}
+	if lcp.config.ACFC {
+		loc[7] = 1
+	}
+	return VerifFSMSnapshot{int(lcp.state), lcp.restartCount, lcp.identifier, lcp.lastIdentifier, lcp.restartTimer != nil, loc}
+}
+
+// VerifTimeout runs the restart-timer expiry handler exactly as the time.AfterFunc callback does.
+// Called while the timer is armed it is a regular expiry; called after the code stopped or replaced
+// the timer it is the expiry that lost the race against Stop().
+func (lcp *LCPStateMachine) VerifTimeout() { lcp.timeout() }
+
+// VerifSnapshot: Local = negotiated.LocalIP.To4() (0 or 4 bytes).
+func (ipcp *IPCPStateMachine) VerifSnapshot() VerifFSMSnapshot {
+	ipcp.mu.RLock()
+	defer ipcp.mu.RUnlock()
+	ipcp.timerMu.Lock()
+	defer ipcp.timerMu.Unlock()
+	var loc []byte
+	if ipcp.negotiated.LocalIP != nil {
+		loc = append(loc, ipcp.negotiated.LocalIP.To4()...)
+	}
+	return VerifFSMSnapshot{int(ipcp.state), ipcp.restartCount, ipcp.identifier, ipcp.lastIdentifier, ipcp.restartTimer != nil, loc}
+}
+
+// VerifTimeout: see LCPStateMachine.VerifTimeout.
+func (ipcp *IPCPStateMachine) VerifTimeout() { ipcp.timeout() }
+
+// VerifSnapshot: Local = config.LocalInterfaceID(8) negotiated.LocalInterfaceID(8).
+func (ipv6cp *IPV6CPStateMachine) VerifSnapshot() VerifFSMSnapshot {
+	ipv6cp.mu.RLock()
+	defer ipv6cp.mu.RUnlock()
+	ipv6cp.timerMu.Lock()
+	defer ipv6cp.timerMu.Unlock()
+	loc := make([]byte, 16)
+	binary.BigEndian.PutUint64(loc[0:8], ipv6cp.config.LocalInterfaceID)
+	binary.BigEndian.PutUint64(loc[8:16], ipv6cp.negotiated.LocalInterfaceID)
+	return VerifFSMSnapshot{int(ipv6cp.state), ipv6cp.restartCount, ipv6cp.identifier, ipv6cp.lastIdentifier, ipv6cp.restartTimer != nil, loc}
+}
+
+// VerifTimeout: see LCPStateMachine.VerifTimeout.
+func (ipv6cp *IPV6CPStateMachine) VerifTimeout() { ipv6cp.timeout() }
